@@ -40,8 +40,40 @@ class Compiled:
     messages: list = field(default_factory=list)
 
 
+@contextlib.contextmanager
+def adversarial_layout(det_time=2.0):
+    """Layout-solver adversary (C08/C09/C18 quantify over EVERY placement the layout stage may settle on): the CP-SAT
+    model the real IntegerLayoutEngine builds is kept (hard constraints: no overlap, fixed positions, edge rows, coordinate
+    bounds) but its objective is MAXIMISED instead of minimised, single-threaded under a deterministic work limit — a
+    feasible solution of the real model that a time-limited / overloaded search may return, and about the worst one.
+    Wraps the third-party ortools classes from outside; /repo is not edited."""
+    from ortools.sat.python import cp_model
+    o_min, o_solve = cp_model.CpModel.minimize, cp_model.CpSolver.solve
+
+    def minimize(self, expr):
+        return cp_model.CpModel.maximize(self, expr)
+
+    def solve(self, model, callback=None):
+        self.parameters.num_workers = 1
+        self.parameters.max_deterministic_time = det_time
+        self.parameters.max_time_in_seconds = 600.0
+        return o_solve(self, model)  # no early-stop callback: take what the adversarial search finds
+
+    cp_model.CpModel.minimize, cp_model.CpSolver.solve = minimize, solve
+    try:
+        yield
+    finally:
+        cp_model.CpModel.minimize, cp_model.CpSolver.solve = o_min, o_solve
+
+
 def compile_capture(src, *, optimize=True, power_pole_type=None, use_json=True, source_name="<string>",
-                    max_layout_retries=3, _attempts=3):
+                    max_layout_retries=3, _attempts=3, layout_adversary=None):
+    if layout_adversary is None:  # VERIF_LAYOUT_ADVERSARY=1 ./check Cxx: run a whole check against adversarial placements
+        layout_adversary = os.environ.get("VERIF_LAYOUT_ADVERSARY") == "1"
+    if layout_adversary:
+        with adversarial_layout():
+            return compile_capture(src, optimize=optimize, power_pole_type=power_pole_type, use_json=use_json, source_name=source_name,
+                                   max_layout_retries=max_layout_retries, _attempts=1, layout_adversary=False)
     """compile_dsl_source with capture of planner / plan / IR / blueprint object.
 
     The CP-SAT layout step works under wall-clock limits and gives up ("Failed to find feasible layout") when the
